@@ -4,7 +4,7 @@
 EXTENDS XSpec
 CONSTANT MaxPairs
 VARIABLES kvs, phase
-Keys == { <<97>>, <<98>>, <<105, 100>>, <<97, 58, 98>>, <<101, 110, 118, 58, 65>>, <<101, 110, 118, 58, 66>>, <<101, 110, 118>>,
+Keys == { <<97>>, <<98>>, <<101, 110, 118, 58, 97>>, <<105, 100>>, <<97, 58, 98>>, <<101, 110, 118, 58, 65>>, <<101, 110, 118, 58, 66>>, <<101, 110, 118>>,
           <<97, Slash>>, <<Slash, 97>>, <<233>>, <<97, 32, 98>>, <<101, 110, 118, 58>> }
 Vals == { T, <<"str", <<>>>>, <<"str", <<49>>>>, <<"str", <<97, Eq, 98>>>>, <<"str", <<Slash>>>>, <<"str", <<120, Slash>>>>,
           <<"str", <<Slash, 120>>>>, <<"str", <<32, 233>>>>, <<"str", <<58>>>> }
